@@ -10,6 +10,14 @@ import OsacaVerif.Gen.IsaDb_aarch64
     e2e.x86 | e2e.a64
             <model:Y> <stlf> <pidx> <mode M|L> <mode argument> <flagdeps 0|1> <ignore-unknown 0|1>
             <version> <file name> <arch> <time stamp> <file text>
+    e2e.opt <isa x86|aarch64> <the same twelve arguments> <P1> <P2> <tol>
+            optimal scheduling (no `--fixed`): `P1` / `P2` = `<line>:<v>,<v>…|…`, the implementation's per-line
+            `port_pressure` after the first / the second call of `assign_optimal_throughput` (exact rationals).
+            The reply is that of `e2e.x86` evaluated by `analyseWith … P2`, plus
+            ` adm1=<ok | line:clause:lt1|…>  adm2=…` (`inadmissible` of `P1` / `P2`: `Spec.checkFeasible` per instruction
+            line of the kernel with slack `INC/2 · #micro-ops + tol`; `lt1` = a micro-op of the line carries a load/store
+            throughput multiplier < 1), ` nuops=<line>:<#micro-ops>|…` and
+            ` exactsums=` (the column sums before rounding).
 
   `<model>` is the raw YAML of the machine model (the keys `Driver/C07.lean: mmodelOf` reads: ports,
   instruction_forms, load/store tables, defaults, multipliers, load_latency); the ISA database is the
@@ -107,7 +115,47 @@ def showExtra (r : Result) : String :=
       toString x.line ++ ":" ++ String.join (x.used.map boolS)) ++
   " report=" ++ enc r.text
 
-def run (isa : Operand.Isa) (db : List Isa.IsaEntry) (model stlf pidx mode marg fd iu version fname arch stamp text : List Char) : String :=
+/-- `<line>:<v>,<v>…|<line>:…` (exact rationals) → the pressure vectors per line number -/
+def pressureEntry (e : Txt) : Option (Nat × List Rat) :=
+  match Driver.C07.splitOn 58 e with
+  | [n, v] => do
+    let n ← parseNat? n
+    let v ← (if v.isEmpty then some [] else (Driver.C07.splitOn 44 v).mapM parseRat?)
+    pure (n, v)
+  | _ => none
+
+def pressuresOf (t : List Char) : Option Pressures :=
+  let s := field t
+  if s.isEmpty then some (fun _ => none) else
+  match (Driver.C07.splitOn 124 s).mapM pressureEntry with
+  | some ps => some fun n => (ps.find? (fun x => x.1 == n)).map (·.2)
+  | none => none
+
+/-- `ok`, or `<line>:<clause>:<1 if a micro-op of the line carries a multiplier < 1, else 0>|…` -/
+def admS (isa : Operand.Isa) (m : Model) (k : List Pipeline.PLine) (bad : List (Nat × String)) : String :=
+  if bad.isEmpty then "ok" else
+  "|".intercalate (bad.map fun (n, c) =>
+    let lt1 := (k.filter fun l => l.num == n).any fun l => (uopsOfText isa m l.text).any fun u => u.mult < 1
+    toString n ++ ":" ++ c ++ ":" ++ boolS lt1)
+
+/-- optimal scheduling: `P1` = the pressures after the first balancing pass (judged for admissibility), `P2` = after
+    the second (what the CLI prints: the analysis and the report are `analyseWith … P2`; its admissibility is reported
+    too, the known second-pass finding of C01 lives there) -/
+structure OptArgs where
+  p1 : Pressures
+  p2 : Pressures
+  tol : Rat
+
+def showOpt (isa : Operand.Isa) (m : Model) (a : OptArgs) (res : Result) : String :=
+  " adm1=" ++ admS isa m res.kernel (inadmissible isa m a.tol res.kernel a.p1) ++
+  " adm2=" ++ admS isa m res.kernel (inadmissible isa m a.tol res.kernel a.p2) ++
+  " nuops=" ++ "|".intercalate ((res.kernel.filter (·.isInstr)).map fun l =>
+      toString l.num ++ ":" ++ toString (uopsOfText isa m l.text).length) ++
+  " exactsums=" ++ Driver.Pipeline.ratsS
+      (Ports.colSumsExact Gen.tpSumSkipValue (res.kernel.map (Pipeline.toPorts m.mm.ports.length)))
+
+def run (isa : Operand.Isa) (db : List Isa.IsaEntry) (model stlf pidx mode marg fd iu version fname arch stamp text : List Char)
+    (opt : Option OptArgs := none) : String :=
   match decodeY model with
   | none => "bad-request"
   | some y =>
@@ -120,8 +168,13 @@ def run (isa : Operand.Isa) (db : List Isa.IsaEntry) (model stlf pidx mode marg 
           flagDeps := fieldS fd == "1", ignoreUnknown := fieldS iu == "1"
           version := field version, file := field fname, arch := field arch, stamp := field stamp
           repr := pyRepr }
-      match analyse isa m o (field text) with
-      | .ok res => Driver.Pipeline.showAnalysis res.analysis ++ showExtra res
+      let out := match opt with
+        | none => analyse isa m o (field text)
+        | some a => analyseWith isa m o (field text) a.p2
+      match out with
+      | .ok res =>
+        Driver.Pipeline.showAnalysis res.analysis ++
+          (match opt with | none => "" | some a => showOpt isa m a res) ++ showExtra res
       | .parseError n _ => "parse-error " ++ toString n
       | .semError n (.tplt e) => "sem-error " ++ toString n ++ " " ++ Driver.C07.errName e
       | .semError n (.changes e) => "sem-error " ++ toString n ++ " " ++ Driver.Roles.errS e
@@ -136,6 +189,14 @@ def handle (r : Req) : Option String :=
     some (run .x86 Gen.isaDbX86 model stlf pidx mode marg fd iu version fname arch stamp text)
   | "e2e.a64", [model, stlf, pidx, mode, marg, fd, iu, version, fname, arch, stamp, text] =>
     some (run .a64 Gen.isaDbA64 model stlf pidx mode marg fd iu version fname arch stamp text)
+  | "e2e.opt", [isa, model, stlf, pidx, mode, marg, fd, iu, version, fname, arch, stamp, text, p1, p2, tol] =>
+    some (match pressuresOf p1, pressuresOf p2, parseRat? (field tol) with
+      | some a, some b, some t =>
+        if fieldS isa == "x86" then
+          run .x86 Gen.isaDbX86 model stlf pidx mode marg fd iu version fname arch stamp text (some ⟨a, b, t⟩)
+        else
+          run .a64 Gen.isaDbA64 model stlf pidx mode marg fd iu version fname arch stamp text (some ⟨a, b, t⟩)
+      | _, _, _ => "bad-request")
   | "e2e.repr", [q] =>
     some (match parseRat? (field q) with
       | some x => enc (pyRepr x)
